@@ -124,7 +124,7 @@ class native_stubs:
             if len(parts) == 1:  # a module-level function: also every `from x import f` alias of it
                 import sys
                 for mname, m in list(sys.modules.items()):
-                    if m is None or not mname.startswith("ramses_"):
+                    if m is None or not (mname.startswith("ramses_") or mname == "asyncio"):
                         continue
                     for k, v in list(vars(m).items()):
                         if v is real and not (m is owner and k == parts[-1]):
